@@ -7,10 +7,11 @@ Import ListNotations.
 Local Open Scope string_scope.
 
 (* what goroutines other than the event loop may touch: the three input channels, the done channel, the socket
-   (assigned before the receiver is started; guarded by connMu between main and Stop), immutable fields *)
+   (assigned before the receiver is started; guarded by connMu between main and Stop), the started/stopped flags
+   (guarded by connMu), immutable fields *)
 Definition offloop_allowed : list string :=
   ["PfcpServer.rcvCh"; "PfcpServer.srCh"; "PfcpServer.trToCh"; "PfcpServer.done";
-   "PfcpServer.conn"; "PfcpServer.connMu"; "PfcpServer.stopped"; "PfcpServer.log";
+   "PfcpServer.conn"; "PfcpServer.connMu"; "PfcpServer.stopped"; "PfcpServer.started"; "PfcpServer.log";
    "TxTransaction.server"; "TxTransaction.id"; "RxTransaction.server"; "RxTransaction.id"].
 
 Definition mem_str (x : string) (l : list string) : bool := existsb (String.eqb x) l.
